@@ -19,6 +19,8 @@ From TV Require Import Dispatch.Sched_Proofs_Emit.
 From TV Require Import Dispatch.Sched_Proofs_Main.
 From TV Require Import Dispatch.Sched_Examples.
 From TV Require Import Dispatch.Sched_World.
+From TV Require Import Dispatch.Sched_Points.
+From TVGen Require Import Gen_sched_points.
 Import ListNotations.
 
 (** ** Once every reload has returned, every emission that starts afterwards (and does not overlap a later reload) —
@@ -81,14 +83,22 @@ Theorem C12_racing_nonvacuous :
 Proof. exact racing_witness. Qed.
 Print Assumptions C12_racing_nonvacuous.
 
-(** ** A handle whose collector is gone reports the error instead of acting: the step logs Err(CollectorGone) and
-    changes nothing else (no lock taken, no cell written, no rebuild) ... *)
+(** ** A handle whose collector is gone reports the error instead of acting.  The handle holds a [Weak] to the reloadable
+    cell; the cell is kept alive by the collector and, transiently, by a reload that upgraded the handle before the
+    collector's last reference went away and has not returned yet ([cell_live]).  With the cell gone the step logs
+    Err(CollectorGone) and changes nothing else (no lock taken, no cell written, no rebuild) ... *)
 Theorem C12_gone :
   forall W s t c f rest, t < st_n s -> th_pc (st_thr s t) = PIdle ->
-  th_prog (st_thr s t) = OReload c f :: rest -> st_created s c = true -> live s c = false ->
+  th_prog (st_thr s t) = OReload c f :: rest -> st_created s c = true -> cell_live s c = false ->
   step W s t = Some (emit_log (EvReload t c f false) (upd_thr t (set_prog rest (st_thr s t)) s)).
 Proof. exact reload_gone. Qed.
 Print Assumptions C12_gone.
+
+(** ... the cell outlives its collector only while such a reload is in flight ... *)
+Theorem C12_cell_gone :
+  forall s c, live s c = false -> cell_live s c = true -> exists t, t < st_n s /\ pc_cell (pcof s t) = Some c.
+Proof. exact cell_gone. Qed.
+Print Assumptions C12_cell_gone.
 
 (** ... and a collector that is gone stays gone (no step resurrects it) *)
 Theorem C12_gone_forever :
@@ -98,7 +108,7 @@ Print Assumptions C12_gone_forever.
 
 Theorem C12_gone_nonvacuous :
   reachable (step WX) (init PG) sG /\ 0 < st_n sG /\ th_pc (st_thr sG 0) = PIdle /\ th_prog (st_thr sG 0) = [OReload 0 1] /\
-  st_created sG 0 = true /\ live sG 0 = false.
+  st_created sG 0 = true /\ live sG 0 = false /\ cell_live sG 0 = false.
 Proof. exact gone_witness. Qed.
 Print Assumptions C12_gone_nonvacuous.
 
@@ -133,3 +143,15 @@ Theorem C12_worlds_wf :
   forall filters levels, wf_tableb filters levels = true -> WFworld (mk_world filters levels).
 Proof. exact mk_world_wf. Qed.
 Print Assumptions C12_worlds_wf.
+
+(** ** Static tie to the instrumented sources (regenerated from /repo on every run by translators/sched_points.py): the
+    yield points found in callsite.rs / metadata.rs / dispatch.rs / tracing's lib.rs / reload.rs are exactly the yield points of
+    the model's program points, and every function hosts the ids the model's step order expects (empty tables = a repository
+    without the hooks: the forced-schedule part is then skipped and recorded as skipped). *)
+Theorem C12_source_points : gen_yield_ids = [] \/ gen_yield_ids = model_yield_ids.
+Proof. exact source_points. Qed.
+Print Assumptions C12_source_points.
+
+Theorem C12_source_sites : gen_yield_sites = [] \/ gen_yield_sites = expected_sites.
+Proof. exact source_sites. Qed.
+Print Assumptions C12_source_sites.
